@@ -67,7 +67,19 @@ fn main() {
         std::process::exit(2);
     }
     // panics of the code under test are data; keep stderr quiet
-    std::panic::set_hook(Box::new(|_| {}));
+    // (MCV_PANIC_LOC=1: print where each panic was raised - for diagnosing a replay)
+    if std::env::var("MCV_PANIC_LOC").is_ok() {
+        std::panic::set_hook(Box::new(|info| {
+            if let Some(l) = info.location() {
+                eprintln!("PANIC-AT {}:{}", l.file(), l.line());
+            }
+            if std::env::var("MCV_PANIC_LOC").map(|v| v == "bt").unwrap_or(false) {
+                eprintln!("{}", std::backtrace::Backtrace::force_capture());
+            }
+        }));
+    } else {
+        std::panic::set_hook(Box::new(|_| {}));
+    }
     let opts = Arc::new(parse_args());
     let file = std::fs::File::open(&opts.input).expect("cannot open --in");
     let scripts: Vec<String> = std::io::BufReader::new(file)
